@@ -1181,6 +1181,7 @@ class Analyzer:
     def _namedtuples(self, modname):
         if not hasattr(self, "_nt_cache"):
             self._nt_cache = {}
+            self._nt_defaults = {}      # class qualname -> {field: literal default}
         if modname not in self._nt_cache:
             out = {}
             for q, node in self.P.module_vars.items():
@@ -1204,6 +1205,14 @@ class Analyzer:
                     fields = [st.target.id for st in ci.node.body if isinstance(st, ast.AnnAssign) and isinstance(st.target, ast.Name)]
                     if fields:
                         out[cq] = fields
+                        dfl = {}
+                        for st in ci.node.body:
+                            if isinstance(st, ast.AnnAssign) and isinstance(st.target, ast.Name) and st.value is not None:
+                                try:
+                                    dfl[st.target.id] = ast.literal_eval(st.value)
+                                except (ValueError, SyntaxError):
+                                    pass
+                        self._nt_defaults[cq] = dfl
             self._nt_cache[modname] = out
         return self._nt_cache[modname]
 
@@ -1226,6 +1235,8 @@ class Analyzer:
                     for t in n.targets:
                         if isinstance(t, ast.Name) and f"{fn.module}.{t.id}" in self.P.module_vars:
                             holders.add(("glob", f"{fn.module}.{t.id}"))
+                        elif isinstance(t, ast.Attribute) and isinstance(t.value, ast.Name) and t.value.id == "self":
+                            holders.add(("attr", ("param", "self"), t.attr))      # self.weights = Weights(...)
 
         def rw(x):
             if not isinstance(x, tuple):
@@ -1234,8 +1245,10 @@ class Analyzer:
             if head(x) == "call" and head(strip(x[1])) == "glob" and strip(x[1])[1] in nts and not any(head(a) == "star" for a in x[2]):
                 fields = nts[strip(x[1])[1]]
                 kw = dict(x[3])
-                vals = list(x[2]) + [kw[f] for f in fields[len(x[2]):] if f in kw]
-                if len(vals) == len(fields) and "**" not in kw:
+                dfl = self._nt_defaults.get(strip(x[1])[1], {})
+                from .terms import const as _const
+                vals = list(x[2]) + [kw[f] if f in kw else _const(dfl[f]) for f in fields[len(x[2]):] if f in kw or (f in dfl and isinstance(dfl[f], (int, float, str, bool, type(None))))]
+                if len(vals) == len(fields) and "**" not in kw and set(kw) <= set(fields):
                     return ("tuple", tuple(vals))
             if head(x) == "alloc" and head(x[2]) == "tuple":
                 return x[2]
